@@ -231,7 +231,9 @@ class Ownership:
                 if d is not None:
                     state = d[1]
                 if i.op == "ret":
-                    if state is None:
+                    # still ours - or handed to a constructor-like callee whose result was never tested: if that call failed the object
+                    # was not taken over, and nobody is left to release it
+                    if state is None or (state is not None and state != "consumed"):
                         leaks.append((i, path))
                     done = True
                     break
